@@ -694,18 +694,60 @@ Definition oerr_eqb := opt_eqb err_eqb.
 Definition oflag_ok (model : bool) (impl : option bool) : bool :=
   match impl with Some b => Bool.eqb model b | None => true end.
 
-(* run a history on the model and compare, after every operation, the exception class, the
-   precondition flag evaluated by the harness on the real objects, and the whole observation *)
-Fixpoint check_run (stp : world -> op -> outcome) (w : world) (ops : list op)
-         (es : list (option err * option bool * obs)) : bool :=
-  match ops, es with
-  | [], [] => true
-  | o :: ops', (e, p, ob) :: es' =>
-      let pr := preb w o in
-      let (w', r) := stp w o in
-      oerr_eqb r e && oflag_ok pr p && obs_eqb (observe w') ob && check_run stp w' ops' es'
-  | _, _ => false
+(* ---------- comparison through a rolling checksum ----------
+   Writing every intermediate observation into the generated case files makes coqc spend minutes
+   parsing literals, so the harness and the model both fold the complete per-operation record
+   (exception class, precondition flag, whole observation) into a 61-bit polynomial checksum
+   h' = (h * HB + token + 1) mod HP and only the checksums (and the final observation, in
+   full) are compared. *)
+Definition HP : Z := 2305843009213693951%Z.      (* 2^61 - 1 *)
+Definition HB : Z := 1000003%Z.
+Definition hmix (h : Z) (x : nat) : Z := ((h * HB + Z.of_nat x + 1) mod HP)%Z.
+Definition hopt (h : Z) (o : option nat) : Z := hmix h (match o with None => 0 | Some n => S n end).
+Definition hash_cslot (h : Z) (c : cslot) : Z :=
+  let '(r, i, k, s) := c in hopt (hopt (hmix (hmix h (if r then 1 else 0)) i) k) s.
+Definition hash_slots (h : Z) (l : list cslot) : Z := fold_left hash_cslot l (hmix h (length l)).
+Definition hash_obs (h : Z) (o : obs) : Z :=
+  let h1 := fold_left (fun h u => hash_slots (hash_slots h (fst u)) (snd u)) (fst o) (hmix h (length (fst o))) in
+  fold_left (fun h p => hopt (hopt h (fst p)) (snd p)) (snd o) (hmix h1 (length (snd o))).
+Definition err_code (e : option err) : nat :=
+  match e with
+  | None => 0 | Some EIndex => 1 | Some EValue => 2 | Some EType => 3 | Some ERuntime => 4 | Some EOther => 5
+  | Some _ => 9
   end.
+(* flag token: 0/1 = the precondition flag, compared; 2 = not compared for this operation *)
+Definition hstep (h : Z) (cmp pre : bool) (r : option err) (w' : world) : Z :=
+  hash_obs (hmix (hmix h (err_code r)) (if cmp then (if pre then 1 else 0) else 2)) (observe w').
+
+Fixpoint run_hash (stp : world -> op -> outcome) (w : world) (ops : list op) (cmps : list bool) (h : Z) : world * Z :=
+  match ops with
+  | [] => (w, h)
+  | o :: t => let cmp := match cmps with c :: _ => c | [] => false end in
+              let (w', r) := stp w o in
+              run_hash stp w' t (tl cmps) (hstep h cmp (preb w o) r w')
+  end.
+Definition check_hist (stp : world -> op -> outcome) (w : world) (ops : list op) (cmps : list bool)
+           (expected : Z) (final : obs) : bool :=
+  let (w', h) := run_hash stp w ops cmps (hash_obs 0%Z (observe w)) in
+  Z.eqb h expected && obs_eqb (observe w') final.
+
+(* operations whose precondition flag the harness computes exactly in every state *)
+Definition flag_exact (o : op) : bool :=
+  match o with
+  | OUnitDisconnect _ _ | OUnitInsert _ _ | OReplaceWith _ None => false
+  | _ => true
+  end.
+(* every sequence of [d] operations over the alphabet [A] from world [w]: sum of the checksums *)
+Fixpoint enum_sum (stp : world -> op -> outcome) (A : list op) (d : nat) (w : world) (h : Z) : Z :=
+  match d with
+  | O => h
+  | S d' => fold_left (fun acc o =>
+              let (w', r) := stp w o in
+              ((acc + enum_sum stp A d' w' (hstep h (flag_exact o) (preb w o) r w')) mod HP)%Z) A 0%Z
+  end.
+Definition check_enum (stp : world -> op -> outcome) (w : world) (A : list op) (d : nat) (expected : Z) : bool :=
+  Z.eqb (enum_sum stp A d w (hash_obs 0%Z (observe w))) expected.
+
 Fixpoint trace (stp : world -> op -> outcome) (w : world) (ops : list op) : list (option err * bool * obs) :=
   match ops with
   | [] => []
